@@ -3,6 +3,7 @@ pub mod c02;
 pub mod c03;
 pub mod c04;
 pub mod c05;
+pub mod c06;
 pub mod c12;
 pub mod c13;
 pub mod c14;
@@ -42,6 +43,7 @@ pub fn info(id: &str) -> Option<Info> {
         "C12" => Info { id: "C12", rule: c12::RULE, floor_classes: 10, assumptions: COMMON_ASSUMPTIONS },
         "C17" => Info { id: "C17", rule: c17::RULE, floor_classes: 10, assumptions: COMMON_ASSUMPTIONS },
         "C18" => Info { id: "C18", rule: c18::RULE, floor_classes: 6, assumptions: COMMON_ASSUMPTIONS },
+        "C06" => Info { id: "C06", rule: c06::RULE, floor_classes: 50, assumptions: COMMON_ASSUMPTIONS },
         "C07" => Info { id: "C07", rule: c07::RULE, floor_classes: 200, assumptions: COMMON_ASSUMPTIONS },
         "C08" => Info { id: "C08", rule: c08::RULE, floor_classes: 200, assumptions: COMMON_ASSUMPTIONS },
         "C09" => Info { id: "C09", rule: c09::RULE, floor_classes: 200, assumptions: COMMON_ASSUMPTIONS },
@@ -65,6 +67,7 @@ pub fn run(id: &str, ctx: &mut Ctx) {
         "C12" => c12::run(ctx),
         "C17" => c17::run(ctx),
         "C18" => c18::run(ctx),
+        "C06" => c06::run(ctx),
         "C07" => c07::run(ctx),
         "C08" => c08::run(ctx),
         "C09" => c09::run(ctx),
